@@ -38,19 +38,22 @@ func zxC01RoundUp() { zxRoundSpec(1 << 30) }
 // the same for the resolution users configure (1 s): the remainder by 10^9 is decided by cvc5's
 // integer encoding of bit-vectors (--solve-bv-as-int=sum), see DESIGN §2
 //
-//zx:harness prop=C01+C07 id=C01.R1s tier=quick solver=cvc5-int timeout=900000
+//zx:harness prop=C01+C07 id=C01.R1s tier=quick solver=cvc5-int timeout=300000
 func zxC01RoundUp1s() { zxRoundSpec(time.Second) }
 
 func zxRoundSpec(res time.Duration) {
 	ts := vrtTime("ts")
-	off := vrtParam("unused", 0)
-	_ = off
+	// Go's Round counts multiples of res from year 1: an instant t is on the grid of res iff
+	// (t + off) mod res = 0 with off = (62135596800·10^9) mod res
+	off := int64(0)
+	if res == 1<<30 {
+		off = 48627712
+	}
 	up := RoundTimeUp(ts, res)
 	down := RoundTimeDown(ts, res)
-	// on the grid: Round leaves them unchanged
-	vrtAssert(up.Round(res).Equal(up), "RoundTimeUp yields an instant on the rounding grid")
-	vrtAssert(down.Round(res).Equal(down), "RoundTimeDown yields an instant on the rounding grid")
-	vrtAssert(!up.Before(ts) && up.Sub(ts) < res, "RoundTimeUp yields the smallest grid instant >= ts")
-	vrtAssert(!down.After(ts) && ts.Sub(down) < res, "RoundTimeDown yields the largest grid instant <= ts")
+	vrtAssert((up.UnixNano()+off)%int64(res) == 0, "RoundTimeUp yields an instant on the rounding grid")
+	vrtAssert((down.UnixNano()+off)%int64(res) == 0, "RoundTimeDown yields an instant on the rounding grid")
+	vrtAssert(vrtAnd(!up.Before(ts), up.Sub(ts) < res), "RoundTimeUp yields the smallest grid instant >= ts")
+	vrtAssert(vrtAnd(!down.After(ts), ts.Sub(down) < res), "RoundTimeDown yields the largest grid instant <= ts")
 	vrtReach("C01.R")
 }
